@@ -34,7 +34,7 @@ PROPS = {
                 "any mutation (or are rolled back)",
         not_decided="equality with the really-updated model; 'no hour before the date'"),
     "C07": dict(
-        rules=["R-OPREC", "R-OPPAR", "R-INPLACE", "R-LABEL", "R-SUMMARY"],
+        rules=["R-OPREC", "R-OPPAR", "R-INPLACE", "R-LABEL", "R-SUMMARY", "R-PAREN"],
         decided="recorded operator and operand order = computed ones; parents recorded; no unrecorded in-place "
                 "numeric change; every assigned result labelled",
         not_decided="numeric re-evaluation of each node"),
@@ -44,12 +44,12 @@ PROPS = {
                 "writers and paired loops, dedup ids injective, attribute graph acyclic at class level",
         not_decided="correctness of attr_updates_chain on arbitrary graphs"),
     "C09": dict(
-        rules=["R-COMM", "R-FILL", "R-PURE", "R-RAW2", "R-OPREC"],
+        rules=["R-COMM", "R-FILL", "R-PURE", "R-RAW2", "R-OPREC", "R-UNITS", "R-DERIVED"],
         decided="operand-kind dispatch symmetry of + and *, zero-fill, operators do not mutate operands, raw "
                 "two-series operations aligned and unit-fixed",
         not_decided="the algebraic laws over values (pint/pandas, trusted)"),
     "C10": dict(
-        rules=["R-MAG"],
+        rules=["R-MAG", "R-SUMMARY", "R-DERIVED"],
         decided="every bare-number extraction from a unit-carrying value happens in a statically fixed unit or a "
                 "scale-invariant context",
         not_decided="nothing beyond pint's own correctness"),
